@@ -83,19 +83,19 @@ func indexingCheck(prop string, rejectAlwaysAllowed bool) func(env *core.Env, ci
 
 func init() {
 	core.Register(&core.Prop{
-		ID: "C04",
-		Rule: "rapid-generated programs over one fixed array [N]T (N 1..6, T in i32/i64/u8/i16/u64) with two canary variables declared around it; 3-10 statements among: reads and writes (=, +=, -=) through an index that is a literal (also negative / just out of range), a const, a never-reassigned let, a let reassigned before or after the access or only in a branch, arithmetic on those, a for-range loop variable, or a parameter of a helper function; copies of the array with writes to the copy; finally a dump of all elements, the canaries and the index variable. Oracle: reference interpreter (index value at the moment of execution, negative values from the end, panic outside [-N, N)); a compile-time rejection is allowed (counted), an accepted program must print exactly the interpreter's lines and panic exactly when it does. non-trivial = accepted and at least one index is not a literal; distinct = program text",
-		Gen:   indexingGen("fixed"),
-		New:   func() any { return &progCase{} },
-		Check: indexingCheck("C04", true),
+		ID:          "C04",
+		Rule:        "rapid-generated programs over one fixed array [N]T (N 1..6, T in i32/i64/u8/i16/u64) with two canary variables declared around it; 3-10 statements among: reads and writes (=, +=, -=) through an index that is a literal (also negative / just out of range), a const, a never-reassigned let, a let reassigned before or after the access or only in a branch, arithmetic on those, a for-range loop variable, or a parameter of a helper function; copies of the array with writes to the copy; finally a dump of all elements, the canaries and the index variable. Oracle: reference interpreter (index value at the moment of execution, negative values from the end, panic outside [-N, N)); a compile-time rejection is allowed (counted), an accepted program must print exactly the interpreter's lines and panic exactly when it does. non-trivial = accepted and at least one index is not a literal; distinct = program text",
+		Gen:         indexingGen("fixed"),
+		New:         func() any { return &progCase{} },
+		Check:       indexingCheck("C04", true),
 		Assumptions: []string{"compile-time rejection of any of these programs is allowed by the property (documented rule: indices must be compile-time constants)"},
 	})
 	core.Register(&core.Prop{
-		ID: "C08",
-		Rule: "rapid-generated histories over one dynamic array (literal of 1..6 elements, appends interleaved with accesses) or one string (a quarter of the cases): reads/writes through literal, const, let (reassigned before/after/in a branch), arithmetic, loop-carried and parameter indices in [-len-2, len+1], a print before every access, final dump of all elements, length and canaries. Oracle: reference interpreter over an abstract list: valid index for the current length => accepted and the stored element printed; invalid => lines printed so far, then 'index out of bounds' panic with non-zero status; a compile-time rejection is legitimate only if some execution indexes out of range. non-trivial = an append precedes an access or an out-of-range access occurs; distinct = program text",
-		Gen:   indexingGen("dyn"),
-		New:   func() any { return &progCase{} },
-		Check: indexingCheck("C08", false),
+		ID:          "C08",
+		Rule:        "rapid-generated histories over one dynamic array (literal of 1..6 elements, appends interleaved with accesses) or one string (a quarter of the cases): reads/writes through literal, const, let (reassigned before/after/in a branch), arithmetic, loop-carried and parameter indices in [-len-2, len+1], a print before every access, final dump of all elements, length and canaries. Oracle: reference interpreter over an abstract list: valid index for the current length => accepted and the stored element printed; invalid => lines printed so far, then 'index out of bounds' panic with non-zero status; a compile-time rejection is legitimate only if some execution indexes out of range. non-trivial = an append precedes an access or an out-of-range access occurs; distinct = program text",
+		Gen:         indexingGen("dyn"),
+		New:         func() any { return &progCase{} },
+		Check:       indexingCheck("C08", false),
 		Assumptions: []string{"string elements are bytes printed as characters (ASCII strings only)"},
 	})
 }
